@@ -37,6 +37,17 @@ def f1(tier, rng, need=None, nq=4, nt=5, sample_t=None):
     return charts
 
 
+_SHIPPED = []
+
+
+def shipped(need=None, max_oracle=7):
+    """F4: abstractions of the statecharts shipped with sismic (tests/yaml, docs/examples)."""
+    if not _SHIPPED:
+        _SHIPPED.extend(gc.family_shipped())
+    return [json.loads(json.dumps(c)) for c in _SHIPPED
+            if (need is None or need(c)) and sum(t['gk'] == 'oracle' for t in c['trans']) <= max_oracle]
+
+
 def has_history(c):
     return any(k in ('shallow', 'deep') for k in c['kind'])
 
@@ -46,7 +57,8 @@ def has_orthogonal(c):
 
 
 def cfg_C02(tier, rng):
-    return [dict(name='skeleton', charts=f1(tier, rng, sample_t=2500),
+    return [dict(name='skeleton', charts=f1(tier, rng, sample_t=2500) + shipped(max_oracle=4)
+                 + gc.family_hist(rng, 25 if tier == QUICK else 250) + gc.family_hist_orth(rng, 10 if tier == QUICK else 60),
                  consts=dict(MaxQ=1, MaxLevel=8 if tier == QUICK else 10),
                  variants=[dict(variant='api')],
                  random=dict(count=150 if tier == QUICK else 1500, length=12,
@@ -54,7 +66,8 @@ def cfg_C02(tier, rng):
 
 
 def cfg_C03(tier, rng):
-    return [dict(name='skeleton', charts=f1(tier, rng, sample_t=2000),
+    return [dict(name='skeleton', charts=f1(tier, rng, sample_t=2000) + shipped(max_oracle=4)
+                 + gc.family_hist(rng, 20 if tier == QUICK else 200),
                  consts=dict(MaxQ=1, MaxLevel=8 if tier == QUICK else 10),
                  variants=[dict(variant='api_edit'), dict(variant='ryaml')],
                  random=dict(count=150 if tier == QUICK else 1500, length=12,
@@ -62,8 +75,8 @@ def cfg_C03(tier, rng):
 
 
 def cfg_C06(tier, rng):
-    big = gc.family_hist(rng, 40 if tier == QUICK else 500)
-    return [dict(name='history', charts=f1(tier, rng, need=has_history, sample_t=2500) + big,
+    big = gc.family_hist(rng, 40 if tier == QUICK else 500) + gc.family_hist_orth(rng, 8 if tier == QUICK else 60)
+    return [dict(name='history', charts=f1(tier, rng, need=has_history, sample_t=2500) + big + shipped(need=has_history),
                  consts=dict(MaxQ=1, MaxLevel=9 if tier == QUICK else 11),
                  variants=[dict(variant='api')],
                  random=dict(count=150 if tier == QUICK else 1500, length=16,
@@ -73,7 +86,8 @@ def cfg_C06(tier, rng):
 
 def cfg_C01(tier, rng):
     k = 90 if tier == QUICK else 1200
-    return [dict(name='bundles', charts=gc.family_f2(rng, k) + gc.family_nested(rng, 40 if tier == QUICK else 500),
+    return [dict(name='bundles', charts=gc.family_f2(rng, k) + gc.family_nested(rng, 40 if tier == QUICK else 500)
+                 + shipped(need=lambda c: any(t['gk'] == 'oracle' for t in c['trans']), max_oracle=6),
                  consts=dict(MaxQ=1, MaxLevel=6 if tier == QUICK else 8),
                  variants=[dict(variant='api')],
                  random=dict(count=150 if tier == QUICK else 1500, length=12,
@@ -167,7 +181,8 @@ def cfg_C08(tier, rng):
     charts = with_contracts(base, rng)
     rich = gc.family_f3(rng, 10 if tier == QUICK else 80, nmin=3, nmax=5, tmin=3, tmax=5, nev=2,
                         max_oracle=1, contracts=True)
-    return [dict(name='contracts', charts=charts + rich,
+    ship = shipped(need=lambda c: sum(c['spre']) + sum(c['spost']) + sum(c['sinv']) > 0, max_oracle=3)
+    return [dict(name='contracts', charts=charts + rich + ship,
                  consts=dict(MaxQ=1, MaxCFail=12 if tier == QUICK else 16, MaxLevel=5 if tier == QUICK else 7),
                  variants=[dict(variant='api')],
                  random=dict(count=150 if tier == QUICK else 1500, length=14, pfail=0.3,
